@@ -12,7 +12,12 @@ ENTRY = {
             'locate(evaluate(s)) against s with the tolerance of one Newton step from the 2^-21 bisection resolution, result in [0,1], '
             'agreement with the exact Lean model (bisection + Newton); off-shape points at graded distances (outside the box / beyond the '
             'resolution => None); wrong point shape => ValueError; triangles degree 1..4 (perturbed affine lattices): corners, edges, dyadic '
-            'and random interior points, outside-box points; distinct by hash of exact inputs',
+            "and random interior points, outside-box points; families FAR and BOX-OFF (props/c10_far.py): the same nets translated by +-m 2^k "
+            "(k up to 26, max|coordinate| / |B'| <= 2^26) with exactly representable on-shape points (end points / corners, dyadic break points "
+            "within the binary64 bit budget), off-curve points at multiples of the final search resolution, and points strictly outside the "
+            "control-point box from one ulp to 2^-16 of the coordinate size and 2^-30 .. 2^-12 of the extent, out of a face or a corner, from "
+            "end nodes / corners / flat edges / shape points moved onto a face => None (curves and triangles, both entry points); "
+            "distinct by hash of exact inputs",
     'partial': ['curves: round trip accuracy after the Newton step is validated numerically (proved: the filter never loses an on-curve point in '
                 'exact arithmetic - filter_complete -, the pre-Newton estimate is within the spread cap, the Newton step fixes the true '
                 'parameter, results lie in [0,1], off-box => None); binary64 rounding inside the filter is outside the model (finding F-F); Props/C10Rounding: one curve Newton step in rounded arithmetic is within ((1+u)^(6n+8+dim)-1)(|s| + (numAbs + |num| denAbs/|den|)/m) of the exact step under an explicit margin m on the denominator |dB|^2 - the allowance of the script 2^-44/reg + 2^-46 follows from it when the hodograph does not cancel',
